@@ -101,7 +101,7 @@ bool FS::isSimPath(const char* path) {
 
 std::string FS::absolute(const std::string& path) const {
   if (!path.empty() && path[0] == '/') return path;
-  if (path.empty()) return cwd;
+  if (path.empty()) return "";   // POSIX: an empty pathname never resolves (ENOENT)
   return cwd + "/" + path;
 }
 
